@@ -270,7 +270,7 @@ pub fn run(ctx: &Ctx) -> Report {
         }
     }
     // generated sparse positions
-    let cases = ctx.tier.pick(32, 640) / ctx.shard_count() as u32;
+    let cases = ctx.tier.pick(32, 2400) / ctx.shard_count() as u32;
     let strat = (gen::synth_strategy(), 2u8..=3);
     run_prop(ctx, "c13", cases.max(1), 40, strat, &mut rep, |(ent, d), rep| {
         let Some(p) = gen::synth_pos(&mut Entropy::new(ent)) else { return Ok(()) };
